@@ -370,6 +370,20 @@ pub fn run(tier: Tier) -> Report {
             pics.push(Pic { hdr: sor(16, 16, 0, 4), mbs: vec![Mb::Coded { kind: Kind::Intra, dquant: 0, mvd: vec![], blocks }] });
         }
     }
+    // every number of AC events 1..63 in one intra block (all of run 0), short and escape-coded last event
+    for n in 1..=63usize {
+        for version in [0u8, 1] {
+            for esc_last in [false, true] {
+                let v1 = version == 1;
+                let mut evs: Vec<Ev> = (0..n - 1).map(|k| ev_auto(false, 0, if k % 3 == 0 { 2 } else { -1 }, v1)).collect();
+                evs.push(if esc_last { Ev { run: 0, level: -29, form: esc_form(v1, -29) } } else { ev_auto(true, 0, 1, v1) });
+                let mut blocks: [Blk; 6] = std::array::from_fn(|b| Blk::dc(dc_code(3, b)));
+                blocks[3].ev = evs.clone();
+                blocks[4].ev = evs;
+                pics.push(Pic { hdr: sor(16, 16, version, 4), mbs: vec![Mb::Coded { kind: Kind::Intra, dquant: 0, mvd: vec![], blocks }] });
+            }
+        }
+    }
     run_pics(&rep, "chain", &pics, &stats);
 
     // ---- block-type sequences: repeated identical sparse blocks interleaved with dense ones
